@@ -10,6 +10,9 @@ from an index":
       the claim is not the caller's `sorted_columns` value passed through, and the `Some(..)` alternative is
       constructed only where an `any(..)` over the fetched rows, whose closure reads the discriminant of a SqlValue,
       is false;
+ (R3) ORDER BY of a set operation orders the combined result: in the function that executes set operations
+      (execute_with_ctes) the call of execute_set_operations is followed, before apply_limit_offset, by a test of
+      stmt.order_by whose Some branch hands the ORDER BY items and the combined rows to a sorting function;
  (R2) the reference the rule relies on: compare_sql_values orders (NULL, x) as Greater and (x, NULL) as Less.
 Does NOT decide that the index order equals the sort order for non-NULL keys (C02 decides the key pipeline), LIMIT /
 OFFSET arithmetic, or DISTINCT."""
@@ -98,3 +101,35 @@ def run(ctx):
     if not ok2:
         ctx.finding('R2/compare_sql_values', 'compare_sql_values no longer orders NULL after every value: rule R1 (and the index path) assume NULLS LAST on the sorting path',
                     cmpf.loc)
+    _setop_rule(ctx, prog)
+
+
+def _setop_rule(ctx, prog):
+    ctx.rule('C08.R3', 'execute_with_ctes: after execute_set_operations and before apply_limit_offset the ORDER BY of the statement is tested and, when present, '
+             'a function receives the ORDER BY items together with the combined rows')
+    fs = [f for f in prog.fns.values() if f.unit == 'vibesql_executor' and not f.is_closure() and not shared.is_test(f)
+          and any((callee_name(t) or '').endswith('::execute_set_operations') for _i, t in f.calls())
+          and any((callee_name(t) or '').endswith('apply_limit_offset') for _i, t in f.calls())]
+    ctx.floor('C08.R3 functions that execute a set operation and then cut it with LIMIT/OFFSET', len(fs), 1)
+    for f in fs:
+        g = cfg(f)
+        s = Sym(f)
+        E = [i for i, t in f.calls() if (callee_name(t) or '').endswith('::execute_set_operations')]
+        L = [i for i, t in f.calls() if (callee_name(t) or '').endswith('apply_limit_offset')]
+        sorters = []
+        for i, t in f.calls():
+            args = [s.op(a) for a in t['args']]
+            # receives the ORDER BY items and the variable that holds the combined rows (the first argument of apply_limit_offset)
+            rows_var = {s.op(f.blocks[l]['t']['args'][0]) for l in L}
+            if any('stmt.order_by' in a for a in args) and any(a in rows_var for a in args) and any(g.dominates(e, i) for e in E):
+                sorters.append(i)
+        ok = bool(sorters) and all(any(g.dominates(e, c) for e in E) for c in sorters)
+        # every path from the set operation to the LIMIT passes the test of stmt.order_by
+        tests = [b for b in g.reachable() if f.blocks[b]['t']['k'] == 'switch' and 'stmt.order_by' in shared.switch_condition(f, b, s)
+                 and any(g.dominates(e, b) for e in E)]
+        passes = bool(tests) and all(any(g.dominates(tb, l) for tb in tests) for l in L if any(g.dominates(e, l) for e in E))
+        ctx.instance(f'R3/{f.nice.rsplit("::", 1)[1]}', {'rule': 'C08.R3', 'fn': f.nice, 'sorting_calls_after_the_set_operation': len(sorters),
+                                                         'order_by_tested_between_set_operation_and_limit': passes})
+        if not (ok and passes):
+            ctx.finding(f'R3/{f.nice.rsplit("::", 1)[1]}', f'{f.nice} cuts the result of a set operation with LIMIT/OFFSET without ordering it by the statement\'s ORDER BY: '
+                        'only the left operand was sorted, the rows of the right operand follow unsorted (SELECT v FROM p UNION SELECT v FROM q ORDER BY v)', f.loc)
